@@ -308,17 +308,17 @@ theorem teardown_idempotent (s : St) (a b : Reason) : teardown (teardown s a) b 
 
 /-- **calls_fail_fast_after_close**: in every state in which a `close()` has completed, `send_data`,
 `create_offer`, `set_remote_description(offer)` and `wait_for_connected` return an error at once,
-`create_data_channel` does not block, and a pending `DataChannel::recv` on any channel returns.
+`create_data_channel` is refused (round-4 fix), and a pending `DataChannel::recv` on any channel returns.
 (`wait_for_connected`, `create_offer`, `set_remote_description` already after block A and for every
 schedule: `close_reaches_terminal`.) -/
 theorem calls_fail_fast_after_close (s : St) (arg : Reason) (hp : s.peer ≠ .closed) (hc : s.close = .none)
     (hch : ∀ c ∈ s.chans, ChanOk c) :
     let t := closeSeq s arg
     call t .sendData = .errNow ∧ call t .createOffer = .errNow ∧ call t .setRemoteOffer = .errNow ∧
-    call t .waitForConnected = .errNow ∧ call t .createDataChannel ≠ .pending ∧
+    call t .waitForConnected = .errNow ∧ call t .createDataChannel = .errNow ∧
     ∀ i, call t (.dcRecv i) ≠ .pending := by
   obtain ⟨h1, h2, h3, _, _, _, _⟩ := closeSeq_result s arg hp hc
-  refine ⟨by simp [call, h3], by simp [call, h2], by simp [call, h2], by simp [call, h1], by simp [call], ?_⟩
+  refine ⟨by simp [call, h3], by simp [call, h2], by simp [call, h2], by simp [call, h1], by simp [call, h1], ?_⟩
   intro i
   have hA : step s (.callClose arg) = closeA s arg := by simp [step, enabled, hc, apply]
   have hAc : (closeA s arg).close = .a := by simp [closeA, hp]
